@@ -38,12 +38,16 @@ fn lists(thorough: bool) -> Vec<Option<Value>> {
     for x in [json!(5), json!("a"), json!({}), json!(null)] {
         out.push(Some(x));
     }
+    // strings that spell a JSON array: a string is not an array
+    for x in [json!("[1]"), json!("[\"a\",1]"), json!("[]"), json!("[null]"), json!("1,a")] {
+        out.push(Some(x));
+    }
     out.push(None);
     out
 }
 
 fn xs() -> Vec<Option<Value>> {
-    let mut v: Vec<Option<Value>> = [json!(1), json!(2), json!("a"), json!("b"), json!(null), json!(true), json!([1]), json!([]), json!({"a": 1})].into_iter().map(Some).collect();
+    let mut v: Vec<Option<Value>> = [json!(1), json!(2), json!("a"), json!("b"), json!(null), json!(true), json!([1]), json!([]), json!({"a": 1}), json!("1"), json!("[1]"), json!("null")].into_iter().map(Some).collect();
     v.push(None);
     v
 }
